@@ -6,6 +6,11 @@ case = {"family", "target" (db key: xip|load_to_ram), "auth" (db key: plain|crc|
         "opts": {load_address, image_version, firmware_version, subtype, tz: [kind, hex], hw_key, key_store: hex|None,
                  hmac_key: hex|None, ctr_iv: hex|None, reloc: [[hex, dst], ...], cert: name, digest: name|None,
                  add_digest: bool, lifecycle, ...}}
+A case with "history": [op, ...] is an object-reuse history on ONE builder object: op = ["export"] or
+["set", group, app_hex, opts] (the complete current settings after the change; `group` names the member(s) that change).
+The member is taken from a fresh object loaded from the new settings and assigned to the reused object (plain attribute
+assignment, what a user of the API does).  After every export the image of a FRESH object with the current settings is
+exported as well.
 Output per case: dict with outcome of every step; bytes as hex.  Signing calls are *recorded* (data, signature) by wrapping
 the signature provider object of the instance -- an observation, the behaviour is unchanged.
 """
@@ -322,6 +327,76 @@ def handler(payload):
         res[name] = ["e", r[1]] + ([r[2]] if len(r) > 2 else [])
         return None
 
+
+    GROUPS = {"app": ["app"], "tz": ["trust_zone", "manifest"], "key_store": ["key_store"], "reloc": ["app_table"],
+              "load_address": ["load_address"], "hmac_key": ["hmac_key"], "ctr_iv": ["ctr_init_vector"],
+              "cert": ["cert_block", "signature_provider"], "image_version": ["image_version"],
+              "hw_key": ["user_hw_key_enabled"], "firmware_version": ["firmware_version", "manifest"]}
+
+    def run_history(case, d, res):
+        sigs = []
+        cur = {"app": case["app"], "opts": dict(case.get("opts", {}))}
+
+        def cfg_of(sub):
+            dd = os.path.join(d, sub)
+            os.makedirs(dd, exist_ok=True)
+            return build_config(dict(case, app=cur["app"], opts=cur["opts"]), dd), dd
+        cm = step(res, "load", lambda: (lambda cd: make(cd[0], cd[1], sigs))(cfg_of("h0")))
+        if cm is None:
+            return
+        cls, m = cm
+        res["class"] = cls.__name__
+        res["mixins"] = [b.__name__ for b in cls.__bases__[1:]]
+        res["image_type"] = int(cls.IMAGE_TYPE[0])
+        hist = []
+        res["history"] = hist
+        for i, op in enumerate(case["history"]):
+            if op[0] == "set":
+                cur = {"app": op[2], "opts": dict(op[3])}
+                e = {"op": "set", "group": op[1]}
+                hist.append(e)
+
+                def assign():
+                    cfg_i, dd = cfg_of(f"h{i + 1}")
+                    _, mf = make(cfg_i, dd, sigs, validate=False)
+                    for a in GROUPS[op[1]]:
+                        if hasattr(mf, a) and hasattr(m, a):
+                            setattr(m, a, getattr(mf, a))
+                    return True
+                r = guarded(assign, 20)
+                e["set"] = "ok" if r[0] == "ok" else ["e", r[1]] + ([r[2]] if len(r) > 2 else [])
+                if r[0] != "ok":
+                    return
+                continue
+            e = {"op": "export"}
+            hist.append(e)
+            n0 = len(sigs)
+            r = guarded(lambda: bytes(m.export()), 20)
+            e["export"] = "ok" if r[0] == "ok" else ["e", r[1]] + ([r[2]] if len(r) > 2 else [])
+            if r[0] == "ok":
+                e["image"] = r[1].hex()
+                e["signed"] = sigs[n0:]
+                e["input"] = observe(m)
+                e["total_len"] = m.total_len
+                e["app_len"] = m.app_len
+
+            def fresh():
+                s2 = []
+                cfg_f, ddf = cfg_of(f"f{i}")
+                _, mf = make(cfg_f, ddf, s2, validate=False)
+                im = bytes(mf.export())
+                obf = observe(mf)
+                isk2 = (obf.get("cert") or {}).get("isk_signature")
+                if isk2:
+                    s2.append(["", isk2])
+                return im, s2, obf
+            rf = guarded(fresh, 30)
+            e["fresh"] = "ok" if rf[0] == "ok" else ["e", rf[1]] + ([rf[2]] if len(rf) > 2 else [])
+            if rf[0] == "ok":
+                e["fresh_image"] = rf[1][0].hex()
+                e["fresh_signed"] = rf[1][1]
+                e["fresh_input"] = rf[1][2]
+
     out = []
     for idx, case in enumerate(payload["cases"]):
         d = os.path.join(work, f"case{idx}")
@@ -329,6 +404,10 @@ def handler(payload):
         os.makedirs(d)
         res = {}
         try:
+            if "history" in case:
+                res["config"] = "ok"
+                run_history(case, d, res)
+                continue
             sigs = []
             cfg = step(res, "config", lambda: build_config(case, d))
             if cfg is None:
